@@ -285,6 +285,7 @@ def split_scenarios(trace_path):
     return scns
 
 
+_ENVBAD = re.compile(r'<<\s*"ENVBAD",\s*\{(.*?)\}\s*>>', re.S)
 _RESULT = re.compile(r'<<\s*"RESULT",\s*(\d+),\s*(\d+),\s*\{(.*?)\}\s*>>', re.S)
 
 
@@ -307,6 +308,10 @@ def _validate_chunk(args):
     if nev != len(lines) or nscn_seen != nscn:
         raise MachineryError("trace validation consumed %d/%d events, %d/%d scenarios" % (nev, len(lines), nscn_seen, nscn))
     bad = [int(x) for x in re.sub(r"\s+", "", m.group(3)).split(",") if x]
+    me = _ENVBAD.search(r["out"])
+    if me and re.sub(r"\s+", "", me.group(1)):
+        raise MachineryError("%s: %s scenario(s) are outside the family's assumptions (harness/generator error, not a verdict): %s"
+                             % (module, len(me.group(1).split(",")), re.sub(r"\s+", "", me.group(1))[:200]))
     shutil.rmtree(d, ignore_errors=True)
     return bad, r["distinct"]
 
